@@ -56,6 +56,13 @@ fn check_lineage(ctx: &Ctx, live: &Rc<Live>, after: &str) -> bool {
             ctx.fail("C10/earlier-map-changed/regions", &format!("after {}: a map {} generation(s) back (built by {}) now lists {:?}, expected {:?}", after, gen, l.how, got, want), json!({"after": after, "generations_back": gen, "built_by": l.how}));
             return false;
         }
+        // the summary queries of the map agree with its regions (also right after the update that
+        // produced a later map)
+        let want_last = want.last().map(|r| r.0 + (r.1 - 1)).unwrap_or(0);
+        if l.map.last_addr().0 != want_last || want.iter().any(|r| l.map.find_region(GuestAddress(r.0)).map(|x| x.as_ptr() as usize) != Some(r.2)) {
+            ctx.fail("C10/earlier-map-changed/queries", &format!("after {}: a map {} generation(s) back (built by {}) with regions {:?} answers last_addr() = {:#x}", after, gen, l.how, want, l.map.last_addr().0), json!({"after": after, "generations_back": gen, "built_by": l.how}));
+            return false;
+        }
         for (i, r) in l.map.iter().enumerate() {
             let tag = l.expect.regs[i].3;
             // SAFETY: mapped for as long as the map is alive (that is the property)
